@@ -32,6 +32,7 @@ var introTemplates = []struct{ re, arm string }{
 	{`^result = &R\.fields$`, ".fieldsAll"},
 	{`^result = &R\.values$`, ".enumValuesAll"},
 	{`^result = R\.Interfaces$`, ".interfacesPlain"},
+	{`^list := newTypeList\(\) ; list\.add\(R\.Interfaces\.\.\.\) ; result = list$`, ".interfaces"},
 	{`^result = R\.possibleTypes\(\)$`, ".possibleImpl"},
 	{`^list := newTypeList\(\) ; list\.add\(R\.Members\.\.\.\) ; result = list$`, ".members"},
 	{`^result = R\.Type$`, ".type"},
